@@ -728,6 +728,21 @@ func (k *Kernel) Blocked() (ts []*Task) {
 // quiescence) blocked inside the code under test.
 func (t *Task) IsBlocked() bool { return t.state == stRunning }
 
+// IsLockWaiting reports whether the task is parked in front of a simulated
+// mutex or Once that is taken (simsync.go): for the code under test that is
+// what being blocked in Lock is.  Scheduler-side.
+func (t *Task) IsLockWaiting() bool {
+	if t.state != stParked || t.note == nil || t.note.o.Pred == nil {
+		return false
+	}
+	switch t.note.o.Site {
+	case "mutex.Lock", "mutex.RLock", "once.Do":
+		return !t.note.o.Pred()
+	}
+
+	return false
+}
+
 // IsParked reports whether the task is parked at a yield point.
 func (t *Task) IsParked() bool { return t.state == stParked }
 
